@@ -424,6 +424,19 @@ fn float_to_big(ctx: &mut Ctx) {
             }
         }
     }
+    if ctx.space("B") && ctx.mine(0) {
+        // From<bool>
+        for b in [false, true] {
+            ctx.case();
+            ctx.nontrivial(1);
+            let args = || vec![format!("b={}", b)];
+            let r = call(ctx, || BigUint::from(b));
+            expect_nat(ctx, "BigUint::from(bool)", &args, r, &Nat::from_u64(b as u64));
+            let r = call(ctx, || BigInt::from(b));
+            expect_int(ctx, "BigInt::from(bool)", &args, r, &Int::from_i64(b as i64));
+        }
+        ctx.sample(|| "From<bool> for both types".to_string());
+    }
     if ctx.space("G2") {
         let mut mants: Vec<u64> = vec![0, 1, (1 << 52) - 1, 1 << 51, (1 << 51) + 1, 0x000A_AAAA_AAAA_AAAA, 0x0005_5555_5555_5555];
         for k in 0..52 {
